@@ -1638,6 +1638,18 @@ def rw_zip_to_index(func, k):
 _OPERATOR_FUNCS = {'add': ast.Add, 'sub': ast.Sub, 'mul': ast.Mult, 'truediv': ast.Div, 'floordiv': ast.FloorDiv, 'mod': ast.Mod, 'pow': ast.Pow, 'matmul': ast.MatMult}
 
 
+def rw_fold_literal_concat(func, k):
+    """(a, b) + (c,)   ->   (a, b, c)        (two displays of the same kind whose elements are constants; read-only use)"""
+    sites = [n for n in ast.walk(func) if isinstance(n, ast.BinOp) and isinstance(n.op, ast.Add) and type(n.left) is type(n.right) and isinstance(n.left, (ast.Tuple, ast.List))
+             and all(isinstance(e_, ast.Constant) for e_ in n.left.elts + n.right.elts)]
+    if k >= len(sites):
+        return False
+    n = sites[k]
+    new = type(n.left)(elts=list(n.left.elts) + list(n.right.elts), ctx=ast.Load())
+    replace_node(func, n, fix(new, n))
+    return True
+
+
 def rw_operator_call(func, k):
     """operator.add(a, b)   ->   a + b        (the functions of the standard module `operator` ARE the operators; same operand order)"""
     sites = [n for n in ast.walk(func) if isinstance(n, ast.Call) and isinstance(n.func, ast.Attribute) and isinstance(n.func.value, ast.Name) and n.func.value.id == 'operator'
@@ -2833,7 +2845,7 @@ KNOWN_SIGNATURES = {
     'lstsq': ['a', 'b'], 'reshape': ['shape'], 'hankel': ['c', 'r'], 'minimize': ['fun', 'x0'], 'least_squares': ['fun', 'x0'], 'zeros': ['shape', 'dtype'], 'ones': ['shape', 'dtype'],
     'empty': ['shape', 'dtype'], 'array': ['object', 'dtype'], 'vstack': ['tup'], 'bincount': ['x', 'weights', 'minlength'], 'flip': ['m', 'axis'], 'sum': ['a', 'axis'], 'mean': ['a', 'axis'],
     'savetxt': ['fname', 'X', 'fmt'], 'loadtxt': ['fname', 'dtype'], 'identity': ['n', 'dtype'], 'eye': ['N', 'M', 'k'], 'dot': ['a', 'b'], 'average': ['a', 'axis', 'weights'],
-    'std': ['a', 'axis'], 'var': ['a', 'axis'], 'arange': ['start', 'stop', 'step'], 'concatenate': ['arrays', 'axis'], 'cumsum': ['a', 'axis'], 'diff': ['a', 'n', 'axis'],
+    'open': ['file', 'mode'], 'std': ['a', 'axis'], 'var': ['a', 'axis'], 'arange': ['start', 'stop', 'step'], 'concatenate': ['arrays', 'axis'], 'cumsum': ['a', 'axis'], 'diff': ['a', 'n', 'axis'],
 }
 PACKAGE_SIGNATURES = {}
 
@@ -3426,7 +3438,7 @@ def rw_inline_helper(func, k):
     return True
 
 
-GUIDED = [rw_zip_collected, rw_zip_mapped, rw_operator_call, rw_zip_to_index, rw_inline_helper, rw_extract_temp, rw_flatten_comp_filter, rw_first_of_concat, rw_split_tuple_assign, rw_augcomp_to_loop, rw_len_zero, rw_bool_ifexp, rw_singleton_comp, rw_ndenumerate_value, rw_flat_to_ndenumerate, rw_slice_zero, rw_flip_compare, rw_keyword_to_positional, rw_fstring_to_percent, rw_np_all_any, rw_range_min_guard, rw_membership_container, rw_drop_default_arg, rw_unpack_first, rw_use_alias, rw_ravel_flatten, rw_last_appended, rw_pass_branch, rw_dictcomp_to_loop, rw_none_flag, rw_argcomp_to_loop, rw_hoist_return, rw_get_none, rw_else_after_exit_wrap, rw_else_after_exit_unwrap, rw_comp_to_loop, rw_loop_to_comp, rw_not_compare, rw_demorgan, rw_swap_branches, rw_merge_nested_if, rw_split_and_if, rw_guard_to_swapped_else, rw_swapped_else_to_guard, rw_drop_tail_return, rw_add_tail_return, rw_element_to_index_loop, rw_fuse_loops, rw_late_publication, rw_drop_tail_continue, rw_items_loop, rw_filter_loop, rw_loop_to_update, rw_is_false, rw_hoist_common_tail, rw_sink_common_tail, rw_try_tail_out, rw_try_tail_in, rw_genexp_loop, rw_guarded_subscript_get, rw_update_to_loop, rw_star_list, rw_filter_none, rw_extend_literal, rw_unpack_name, rw_tolist_index, rw_fuse_nested_comp, rw_split_elif_after_exit, rw_join_elif_after_exit, rw_np_synonym, rw_append_augadd, rw_list_call_to_comp, rw_last_is_appended, rw_move_append, rw_append_comp_to_loop, rw_split_append_concat, rw_enumerate_to_index, rw_subscripted_literal, rw_extend_to_loop, rw_comp_over_collected, rw_tail_pass_to_continue, rw_split_or_exit, rw_merge_exit_ifs, rw_unroll_const_loop, rw_drop_noop_pass, rw_ifexp_to_if, rw_if_to_ifexp, rw_bool_to_if, rw_kwargs_default, rw_trailing_return, rw_enumerate, rw_return_temp]
+GUIDED = [rw_zip_collected, rw_zip_mapped, rw_operator_call, rw_fold_literal_concat, rw_zip_to_index, rw_inline_helper, rw_extract_temp, rw_flatten_comp_filter, rw_first_of_concat, rw_split_tuple_assign, rw_augcomp_to_loop, rw_len_zero, rw_bool_ifexp, rw_singleton_comp, rw_ndenumerate_value, rw_flat_to_ndenumerate, rw_slice_zero, rw_flip_compare, rw_keyword_to_positional, rw_fstring_to_percent, rw_np_all_any, rw_range_min_guard, rw_membership_container, rw_drop_default_arg, rw_unpack_first, rw_use_alias, rw_ravel_flatten, rw_last_appended, rw_pass_branch, rw_dictcomp_to_loop, rw_none_flag, rw_argcomp_to_loop, rw_hoist_return, rw_get_none, rw_else_after_exit_wrap, rw_else_after_exit_unwrap, rw_comp_to_loop, rw_loop_to_comp, rw_not_compare, rw_demorgan, rw_swap_branches, rw_merge_nested_if, rw_split_and_if, rw_guard_to_swapped_else, rw_swapped_else_to_guard, rw_drop_tail_return, rw_add_tail_return, rw_element_to_index_loop, rw_fuse_loops, rw_late_publication, rw_drop_tail_continue, rw_items_loop, rw_filter_loop, rw_loop_to_update, rw_is_false, rw_hoist_common_tail, rw_sink_common_tail, rw_try_tail_out, rw_try_tail_in, rw_genexp_loop, rw_guarded_subscript_get, rw_update_to_loop, rw_star_list, rw_filter_none, rw_extend_literal, rw_unpack_name, rw_tolist_index, rw_fuse_nested_comp, rw_split_elif_after_exit, rw_join_elif_after_exit, rw_np_synonym, rw_append_augadd, rw_list_call_to_comp, rw_last_is_appended, rw_move_append, rw_append_comp_to_loop, rw_split_append_concat, rw_enumerate_to_index, rw_subscripted_literal, rw_extend_to_loop, rw_comp_over_collected, rw_tail_pass_to_continue, rw_split_or_exit, rw_merge_exit_ifs, rw_unroll_const_loop, rw_drop_noop_pass, rw_ifexp_to_if, rw_if_to_ifexp, rw_bool_to_if, rw_kwargs_default, rw_trailing_return, rw_enumerate, rw_return_temp]
 
 
 def _clone(node):
@@ -3437,7 +3449,7 @@ def _clone(node):
         return copy.deepcopy(node)
 
 
-ENABLERS = {rw_subscripted_literal: [rw_extract_temp], rw_unpack_name: [rw_extend_literal, rw_inline_temp, rw_append_augadd], rw_extend_literal: [rw_unpack_name, rw_inline_temp], rw_loop_to_comp: [rw_inline_temp], rw_keyword_to_positional: [rw_extract_temp, rw_keyword_to_positional], rw_list_call_to_comp: [rw_comp_to_loop], rw_zip_to_index: [rw_extract_temp, rw_use_alias], rw_comp_to_loop: [rw_enumerate_to_index, rw_zip_to_index, rw_split_append_concat, rw_append_comp_to_loop]}
+ENABLERS = {rw_fold_literal_concat: [rw_membership_container], rw_subscripted_literal: [rw_extract_temp], rw_unpack_name: [rw_extend_literal, rw_inline_temp, rw_append_augadd], rw_extend_literal: [rw_unpack_name, rw_inline_temp], rw_loop_to_comp: [rw_inline_temp], rw_keyword_to_positional: [rw_extract_temp, rw_keyword_to_positional], rw_list_call_to_comp: [rw_comp_to_loop], rw_zip_to_index: [rw_extract_temp, rw_use_alias], rw_comp_to_loop: [rw_enumerate_to_index, rw_zip_to_index, rw_split_append_concat, rw_append_comp_to_loop]}
 REMOVALS = (rw_drop_tail_return, rw_drop_tail_continue, rw_drop_noop_pass, rw_fuse_loops)
 
 
